@@ -13,6 +13,8 @@ Definition jp_code (pre : bool) : N := if pre then 4 else 8.
     records are not call-tracer callbacks) *)
 Definition to_tev (e : event) : option tev :=
   match e with
+  | EvStart from to create input gas value => Some (TStart from to create input gas value)
+  | EvEnd out used err => Some (TEnd out used (option_map verr_text err))
   | EvEnter kind from to input gas value => Some (TEnter kind from to input gas value)
   | EvExit out used err => Some (TExit out used (option_map verr_text err))
   | EvAspEnter pre from to a input gas value => Some (TAspEnter (jp_code pre) from to a input gas (Some value))
@@ -189,7 +191,7 @@ Section Stream.
 
   Definition PS (fuel : nat) : Prop :=
     (forall d fc m s r s', RUN fuel (S d) fc m s = Some (r, s') -> exists f, Fd s s' f) /\
-    (forall d hint fc gas s r s', RUNF fuel (S d) hint fc gas s = Some (r, s') -> exists f, Fd s s' f) /\
+    (forall d hint fc gas s r s', RUNF fuel d hint fc gas s = Some (r, s') -> exists f, Fd s s' f) /\
     (forall d hint ps caller addr input gas value s r s', CALL fuel (S d) hint ps caller addr input gas value s = Some (r, s') -> exists f, Fd s s' f) /\
     (forall d hint pf addr input gas value s r s', CALLCODE fuel (S d) hint pf addr input gas value s = Some (r, s') -> exists f, Fd s s' f) /\
     (forall d hint pf addr input gas s r s', DELEGATE fuel (S d) hint pf addr input gas s = Some (r, s') -> exists f, Fd s s' f) /\
@@ -400,6 +402,80 @@ Section Stream.
       + rewrite XE. reflexivity.
   Qed.
 
+  (** the top-level CALL of a transaction: either refused before anything is reported, or CaptureStart, the Aspects of its
+      pre join point, the forest of its code's calls, the Aspects of its post join point, CaptureEnd *)
+  Theorem top_call_stream fuel hint ps caller addr input gas value s r s' :
+    CALL fuel 0 hint ps caller addr input gas value s = Some (r, s') ->
+    xe s' = xe s \/
+    exists pre body post ev out used err,
+      xe s' = xe s ++ ev /\
+      trs ev = TStart caller addr false input gas value :: flat_map events_a pre ++ flat_map events_c body ++ flat_map events_a post
+               ++ [TEnd out used (option_map verr_text err)] /\
+      forallb wf_a pre = true /\ forallb wf_c body = true /\ forallb wf_a post = true.
+  Proof.
+    destruct fuel as [|f]; [discriminate|]. intros E.
+    destruct (frames_emit_tree_streams f) as [_ [IHrunf _]].
+    rewrite call_unfold in E. cbv beta zeta in E.
+    set (s1 := save_call W artela s caller (Some addr) input value gas) in *.
+    assert (X1 : xe s1 = xe s) by (unfold s1, save_call; destruct artela; reflexivity).
+    assert (XE : forall (x : xst) rr, xe (exit_call W artela x rr) = xe x) by (intros; unfold exit_call; destruct artela; reflexivity).
+    assert (SHAPE : forall (s3 s4 s5 s6 sf : xst) pre body post out used err,
+               xe s3 = xe s ++ [EvStart caller addr false input gas value] ->
+               Ad s3 s4 pre -> Fd s4 s5 body -> Ad s5 s6 post ->
+               xe sf = xe s6 ++ [EvEnd out used err] ->
+               exists pre0 body0 post0 ev out0 used0 err0,
+                 xe sf = xe s ++ ev /\
+                 trs ev = TStart caller addr false input gas value :: flat_map events_a pre0 ++ flat_map events_c body0 ++ flat_map events_a post0
+                          ++ [TEnd out0 used0 (option_map verr_text err0)] /\
+                 forallb wf_a pre0 = true /\ forallb wf_c body0 = true /\ forallb wf_a post0 = true).
+    { intros s3 s4 s5 s6 sf pre body post out used err E3 (e4 & E4 & T4 & W4) (e5 & E5 & T5 & W5) (e6 & E6 & T6 & W6) Ef.
+      exists pre, body, post, ([EvStart caller addr false input gas value] ++ e4 ++ e5 ++ e6 ++ [EvEnd out used err]), out, used, err.
+      split; [rewrite Ef, E6, E5, E4, E3; repeat rewrite <- app_assoc; reflexivity|].
+      split; [rewrite !trs_app, T4, T5, T6; cbn; repeat rewrite <- app_assoc; reflexivity|auto]. }
+    destruct (Nat.ltb max_depth 0); [inversion E; subst; cbn [fst snd]; left; rewrite XE; exact X1|].
+    destruct (negb (value =? 0) && negb (can_transfer (xw s1) caller value)); [inversion E; subst; cbn [fst snd]; left; rewrite XE; exact X1|].
+    destruct (negb (exists_acct (xw s1) addr) && negb (is_precompile addr) && is_eip158 && (value =? 0)).
+    { inversion E; subst. cbn [fst snd]. right. rewrite XE.
+      set (sx := dbg_open W true s1 0 241 caller addr false input gas (Some value)).
+      eapply (SHAPE sx sx sx sx _ [] [] []);
+        [cbn; rewrite X1; reflexivity|apply Ad_refl|apply Fd_refl|apply Ad_refl|reflexivity]. }
+    set (s2 := if exists_acct (xw s1) addr then s1 else set_w W s1 (create_account (xw s1) addr)) in *.
+    assert (X2 : xe s2 = xe s) by (unfold s2; destruct (exists_acct (xw s1) addr); exact X1).
+    set (s2t := transfer_recorded W transfer balance_of artela s2 caller addr value) in *.
+    assert (X2t : xe s2t = xe s) by (unfold s2t, transfer_recorded; destruct artela; exact X2).
+    set (s3 := dbg_open W true s2t 0 241 caller addr false input gas (Some value)) in *.
+    assert (X3 : xe s3 = xe s ++ [EvStart caller addr false input gas value]) by (cbn; rewrite X2t; reflexivity).
+    destruct (is_precompile addr).
+    { destruct (tail W (xw s1) (precompile addr (if artela then Some caller else None) input gas) s3) as [r' s''] eqn:T.
+      inversion E; subst. cbn [fst snd]. right. rewrite XE.
+      eapply (SHAPE s3 s3 s3 s'' _ [] [] []); [exact X3|apply Ad_refl|apply Fd_refl| |reflexivity].
+      exists []. rewrite app_nil_r. split; [apply (xe_tail _ _ _ _ _ T)|auto]. }
+    destruct (code_of (xw s3) addr) as [|c0 code] eqn:Ecode.
+    { inversion E; subst. cbn [fst snd]. right. rewrite XE.
+      eapply (SHAPE s3 s3 s3 s3 _ [] [] []); [exact X3|apply Ad_refl|apply Fd_refl|apply Ad_refl|reflexivity]. }
+    match type of E with context [match ?X with _ => _ end] => destruct X as [[[pret pgas] perr] s4] eqn:EP end.
+    assert (A34 : exists pre, Ad s3 s4 pre).
+    { destruct (artela && jp_on); [eapply jp_stream; exact EP|]. inversion EP; subst. exists []. apply Ad_refl. }
+    destruct A34 as [pre A34].
+    destruct perr as [e|].
+    { inversion E; subst. cbn [fst snd]. right. rewrite XE.
+      eapply (SHAPE s3 s4 s4 (set_w W s4 (xw s1)) _ pre [] []); [exact X3|exact A34|apply Fd_refl| |reflexivity].
+      exists []. rewrite app_nil_r. auto. }
+    match type of E with context [match ?X with _ => _ end] => destruct X as [[rb s5]|] eqn:ER end; [|discriminate].
+    apply IHrunf in ER. destruct ER as [body FB].
+    match type of E with context [let '(_, _) := ?X in _] => destruct X as [rq s6] eqn:EQ end.
+    assert (A56 : exists post, Ad s5 s6 post).
+    { destruct (artela && jp_on).
+      - match type of EQ with context [let '(_, _) := ?X in _] => destruct X as [[[qret qgas] qerr] s7] eqn:EJ end.
+        inversion EQ; subst. eapply jp_stream; exact EJ.
+      - inversion EQ; subst. exists []. apply Ad_refl. }
+    destruct A56 as [post A56].
+    destruct (tail W (xw s1) rq s6) as [r' s''] eqn:T.
+    inversion E; subst. cbn [fst snd]. right. rewrite XE.
+    eapply (SHAPE s3 s4 s5 s'' _ pre body post); [exact X3|exact A34|exact FB| |reflexivity].
+    destruct A56 as (ev & E6 & T6 & W6). exists ev. rewrite (xe_tail _ _ _ _ _ T). auto.
+  Qed.
+
   (** ... and therefore the call tracer, fed the callbacks of any such frame while some frame [f] is open with no Aspect
       running, appends to [f]'s calls exactly the frames of the forest — each call under its issuer, each Aspect execution
       under its call's join point, nothing twice or missing (composition with the C19 theorems) *)
@@ -414,5 +490,23 @@ Section Stream.
     destruct (Hc _ _ _ _ _ _ _ _ _ _ _ E) as (forest & ev & E1 & T & Wf).
     exists forest, ev. split; [exact E1|]. intros f rest g b k. rewrite T.
     apply runs_calls. apply forall_runs_c. exact Wf.
+  Qed.
+
+  (** the whole top-level CALL through the call tracer: unless the call is refused before anything is reported, the
+      tracer's result is the frame of the tree of what ran *)
+  Corollary traced_top_call fuel hint ps caller addr input gas value s r s' :
+    CALL fuel 0 hint ps caller addr input gas value s = Some (r, s') ->
+    xe s' = xe s \/
+    exists ev x, xe s' = xe s ++ ev /\ trs ev = events_call x /\
+      x_from x = caller /\ x_to x = addr /\ x_input x = input /\ x_value x = value /\ x_create x = false /\
+      match ct_run false t_init (trs ev) with Ok st => ct_result st | Err e => Err e | Panic e => Panic e end = Ok (frame_call x).
+  Proof.
+    intros E. destruct (top_call_stream _ _ _ _ _ _ _ _ _ _ _ E) as [H|(pre & body & post & ev & out & used & err & E1 & T & W1 & W2 & W3)];
+      [left; exact H|right].
+    set (x := {| x_gaslimit := 0; x_rest := 0; x_pretx := []; x_from := caller; x_to := addr; x_create := false; x_input := input;
+                 x_gas := gas; x_value := value; x_pre := pre; x_body := body; x_post := post; x_out := out; x_used := used;
+                 x_err := option_map verr_text err; x_posttx := [] |}).
+    exists ev, x. split; [exact E1|]. split; [exact T|]. repeat (split; [reflexivity|]).
+    rewrite T. apply (ct_call_exact x); assumption.
   Qed.
 End Stream.
